@@ -33,7 +33,15 @@ class OpSpec:
         syms = list(w.units)
         self.idx = idx
         r = rng.random()
-        if sibling_of is not None and sibling_of.op != "**":
+        if sibling_of is not None and sibling_of.op == "**":
+            # the same power at the other level (unit <-> quantity)
+            self.op = "**"
+            self.s1 = sibling_of.s1
+            self.n = sibling_of.n
+            self.k1 = "q" if sibling_of.k1 == "u" else "u"
+            self.s2 = self.k2 = None
+            r = None
+        elif sibling_of is not None:
             # same operator and same two TYPES, other units: a result cached
             # per type pair instead of per unit pair would be wrong here
             self.op = sibling_of.op
@@ -182,12 +190,25 @@ def schedule_program(rng, plan, ops, sched):
 
 
 def world_group(chk, rng, wi, pending):
-    plan, w0 = random_plan(rng)
+    plan, w0 = random_plan(rng, power_type=(wi % 3 == 0),
+                           force_quantum=(wi % 3 == 0))
     nops = rng.randint(10, 40)
     ops = []
     for j in range(nops):
         sib = ops[-1] if ops and rng.random() < 0.3 else None
         ops.append(OpSpec(rng, w0, j, sibling_of=sib))
+    # powers whose result type exists, at both levels, next to each other
+    for t in w0.types.values():
+        if len(t.defn) == 1 and t.defn[0][1] in (2, 3, -1, -2):
+            base_t, n = t.defn[0]
+            for u in w0.units_of(base_t)[:4]:
+                o = OpSpec(rng, w0, len(ops))
+                o.op, o.s1, o.n = "**", u.sym, n
+                o.k1 = rng.choice("uq")
+                o.s2 = o.k2 = None
+                ops.append(o)
+                ops.append(OpSpec(rng, w0, len(ops), sibling_of=o))
+    nops = len(ops)
     group = dict(wi=wi, results={}, plan=[d.to_json() for d in plan],
                  nops=nops)
     cases = []
